@@ -43,6 +43,12 @@ func main() {
 			lens = append(lens, atoi(x))
 		}
 		c11(os.Args[2], os.Args[3], lens, atoi(os.Args[5]))
+	case "c11one":
+		// fstree c11one <out.ndjson> <mode> <a> <b> <L>
+		a, _ := strconv.ParseUint(os.Args[4], 10, 64)
+		b, _ := strconv.ParseUint(os.Args[5], 10, 64)
+		oneReq = rngIn{Mode: os.Args[3], A: a, B: b, L: atoi(os.Args[6])}
+		c11(os.Args[2], "one", []int{oneReq.L}, 0)
 	case "worker":
 		worker(os.Args[2])
 	case "verify":
